@@ -46,17 +46,31 @@ def _subdir_trailing(base, test):
 
 
 def _subdir_glob(base, test):
-    if not base.endswith('/'):
-        base += '/'
-    if not test.endswith('/'):
-        test += '/'
-    return fnmatch.fnmatchcase(test, base)
+    """-I/-X LIST: the URL path lies in, or anywhere below, a directory whose path matches
+    the (possibly wildcarded) list entry - Wget's documented meaning of a directory list.
+    Written from that meaning, not from wpull's is_subdir(): every directory prefix of the
+    path (and the path itself, which may name a directory without a trailing slash) is a
+    candidate."""
+    base = base.rstrip('/')
+    parts = test.rstrip('/').split('/')
+    for n in range(1, len(parts) + 1):
+        cand = '/'.join(parts[:n])
+        if fnmatch.fnmatchcase(cand, base):
+            return True
+    return False
 
 
 def _suffix_match(suffixes, name):
+    """-A/-R LIST: wpull's documented meaning ("filter URLs that match the filename
+    suffixes", its own test expects 'image.*.png' to accept 'myimage.1003.png'): an element,
+    with or without wildcards, must match some *tail* of the file name.  (Wget itself treats
+    a wildcard element as a pattern for the whole name; reading the list that way flagged
+    -A 'in*' accepting 'main-index.txt', which is wpull working as designed - a false alarm
+    of a too-strict reference, corrected here.)"""
     for s in suffixes:
-        if re.search(fnmatch.translate(s), name):
-            return True
+        for i in range(len(name) + 1):
+            if fnmatch.fnmatchcase(name[i:], s):
+                return True
     return False
 
 
